@@ -12,7 +12,10 @@ RULE = ('(a) exhaustive: every set of <=2 dependencies over all 9 ordered (child
         'disable_checks/disable_notifications) x sampled status assignments; (c) random graphs on <=10 nodes with random runtime '
         'add/remove sequences, status changes and period toggles, groups and registry dumped after each change; (d) chains of '
         '255/256/257 dependencies (recursion limit), plain and masked by a redundancy group; (e) cycles closed through the implicit '
-        'service->host edge at load and at runtime add. non-trivial = at least one dependency accepted and (an unreachable verdict or a '
+        'service->host edge at load and at runtime add; (f) 12 cycle / near-cycle shapes (2- and 3-cycles, through one or two implicit '
+        'service->host edges, service<->service) with EVERY assignment of {object Dependency, apply Dependency} to the edges and of '
+        '{object Service, apply Service} to the services, i.e. every split of the edges over the commit rounds of one load, followed by '
+        'runtime additions closing the near-cycles; apply-rule edges/services also mixed into (c) and (e). non-trivial = at least one dependency accepted and (an unreachable verdict or a '
         'rejected cycle or >=2 groups); distinct = distinct script text')
 TRUSTED = ['model: coq/Dep/DgModel.v (transcription of Dependency::IsAvailable, DependencyGroup::GetState, Checkable::IsReachable, '
            'DependencyCycleChecker::AssertNoCycle + BeforeOnAllConfigLoadedHandler, Checkable::AddDependency/RemoveDependency/'
@@ -39,6 +42,7 @@ class W:
         self.deps = {}       # id -> (c, p)
         self.next_dep = 0
         self.periods = []
+        self.apply_svcs = set()
 
     def tick(self, d=None):
         self.t += d if d is not None else self.rnd.choice((1, 1, 2, 5, 10))
@@ -83,10 +87,23 @@ class W:
             return r.choice((3, 3, 1, 0, 2, 4, 8, 6, 12, 15, 9))
         return r.choice((16, 16, 16, 32, 0, 48))
 
-    def dep_line(self, op, did, c, p, rg='-', sf=None, iss=1, per='-', dc=0, dn=1):
+    def dep_line(self, op, did, c, p, rg='-', sf=None, iss=1, per='-', dc=0, dn=1, via='obj'):
         if sf is None:
             sf = 3 if self.is_svc(p) else 16
-        return '%s d=%d c=%d p=%d rg=%s sf=%d iss=%d per=%s dc=%d dn=%d' % (op, did, c, p, rg, sf, iss, per, dc, dn)
+        return '%s d=%d c=%d p=%d rg=%s sf=%d iss=%d per=%s dc=%d dn=%d%s' % (op, did, c, p, rg, sf, iss, per, dc, dn,
+                                                                             ' via=apply' if via == 'apply' else '')
+
+    def batches(self, deps):
+        """deps: list of (c, p, via) of ONE load -> the commit rounds [A, B, C] (see ocaml/ops_dg.ml load_batches)"""
+        a = [(c, p) for c, p, v in deps if v == 'apply' and c in self.apply_svcs]
+        b = [(c, p) for c, p, v in deps if v != 'apply']
+        cc = [(c, p) for c, p, v in deps if v == 'apply' and c not in self.apply_svcs]
+        return [x for x in (a, b, cc) if x]
+
+    def spans_batches(self, deps):
+        """the load is cyclic, but no single round (together with everything before the load) is"""
+        bs = self.batches(deps)
+        return len(bs) >= 2 and self.cyclic([(c, p) for c, p, _ in deps]) and not any(self.cyclic(b) for b in bs)
 
     def rand_attrs(self, p):
         r = self.rnd
@@ -103,11 +120,12 @@ class W:
         return 'dg_set n=%d s=%d h=%d' % (n, s, h)
 
 
-def layout(w, spec):
-    """spec: list of None (host) or host index (service)."""
+def layout(w, spec, apply_svcs=()):
+    """spec: list of None (host) or host index (service); apply_svcs: services created by `apply Service`."""
+    w.apply_svcs = set(apply_svcs)
     for i, h in enumerate(spec):
         w.nodes[i] = h
-        w.lines.append('dg_host n=%d' % i if h is None else 'dg_svc n=%d h=%d' % (i, h))
+        w.lines.append('dg_host n=%d' % i if h is None else 'dg_svc n=%d h=%d%s' % (i, h, ' via=apply' if i in w.apply_svcs else ''))
 
 
 def status_sweep(w, k):
@@ -237,7 +255,9 @@ def random_graphs(rnd, cases, n):
         for i in range(nn):
             hosts = [j for j, h in enumerate(lay) if h is None]
             lay.append(None if not hosts or rnd.random() < 0.5 else rnd.choice(hosts))
-        layout(w, lay)
+        apply_p = rnd.choice((0.0, 0.3, 0.5))
+        asv = [i for i, h in enumerate(lay) if h is not None and rnd.random() < apply_p]
+        layout(w, lay, asv)
         w.periods = [0, 1]
         for p in w.periods:
             w.lines.append('dg_tp p=%d open=%d' % (p, rnd.randint(0, 1)))
@@ -254,16 +274,21 @@ def random_graphs(rnd, cases, n):
             return c, p
         m = rnd.randint(2, 12)
         extra = []
+        vias = []
         for i in range(m):
             c, p = rand_edge()
             if rnd.random() < 0.2 and extra:
                 c, p, _ = rnd.choice(extra)
             rg = rnd.choice(('-', '-', '1', '2'))
-            w.lines.append(w.dep_line('dg_dep', w.next_dep, c, p, rg=rg, **w.rand_attrs(p)))
+            via = 'apply' if rnd.random() < apply_p else 'obj'
+            w.lines.append(w.dep_line('dg_dep', w.next_dep, c, p, rg=rg, via=via, **w.rand_attrs(p)))
             extra.append((c, p, w.next_dep))
+            vias.append((c, p, via))
             w.next_dep += 1
         w.lines.append('dg_commit')
+        tags = {'family': 'random-le10', 'rounds': len(w.batches(vias))}
         if w.cyclic([(c, p) for c, p, _ in extra]):
+            tags['span_batches'] = w.spans_batches(vias)
             layout(w, lay)
             for p in w.periods:
                 w.lines.append('dg_tp p=%d open=1' % p)
@@ -299,7 +324,7 @@ def random_graphs(rnd, cases, n):
                     w.lines.append(w.rand_status(n_))
             w.lines.append('dg_q')
         w.lines.append('dg_g')
-        cases.append({'lines': w.lines, 'tags': {'family': 'random-le10'}})
+        cases.append({'lines': w.lines, 'tags': tags})
 
 
 def chains(rnd, cases):
@@ -363,15 +388,20 @@ def implicit_cycles(rnd, cases, n):
             if mode != 'batch':
                 w.lines.append('dg_commit')
             acc = []
+            span = False
             if mode == 'runtime':
                 for i, (c, p) in enumerate(deps):
                     w.lines.append(w.dep_line('dg_add', i, c, p, rg=rnd.choice(('-', '-', '3')), **w.rand_attrs(p)))
                     if not w.cyclic([(c, p)]):
                         w.deps[i] = (c, p)
             else:
+                vias = []
                 for i, (c, p) in enumerate(deps):
-                    w.lines.append(w.dep_line('dg_dep', i, c, p, rg=rnd.choice(('-', '-', '3')), **w.rand_attrs(p)))
+                    via = 'apply' if (mode == 'batch' and rnd.random() < 0.5) else 'obj'
+                    vias.append((c, p, via))
+                    w.lines.append(w.dep_line('dg_dep', i, c, p, rg=rnd.choice(('-', '-', '3')), via=via, **w.rand_attrs(p)))
                 w.lines.append('dg_commit')
+                span = w.spans_batches(vias)
                 if w.cyclic(deps):
                     if mode == 'batch':
                         layout(w, lay)
@@ -386,7 +416,69 @@ def implicit_cycles(rnd, cases, n):
                         w.deps[i] = x
             w.lines.append('dg_g')
             status_sweep(w, 3)
-            cases.append({'lines': w.lines, 'tags': {'family': 'implicit-edge-%s' % mode}})
+            cases.append({'lines': w.lines, 'tags': {'family': 'implicit-edge-%s' % mode, 'span_batches': (mode != 'runtime' and span)}})
+
+
+SPLIT_SHAPES = [
+    # (layout, edges, closing runtime edge or None) - cycles and near-cycles
+    ([None, None], [(0, 1), (1, 0)], None),
+    ([None, None, None], [(0, 1), (1, 2), (2, 0)], None),
+    ([None, None, 1], [(0, 2), (1, 0)], None),                 # 0 -> svc2 -(implicit)-> host1 -> 0
+    ([None, None, 0, 1], [(0, 3), (1, 2)], None),              # two implicit edges
+    ([None, None, 0], [(1, 2), (0, 1)], None),                 # host1 -> svc2 -(implicit)-> host0 -> host1
+    ([None, 0, 0], [(1, 2), (0, 1)], None),                    # svc1 -> svc2 -(implicit)-> host0 -> svc1
+    ([None, None, 1, 0], [(2, 3), (3, 2)], None),              # service <-> service
+    ([None, None, None], [(0, 1), (1, 2), (0, 2)], (2, 0)),    # near-cycles: acyclic, one runtime edge closes them
+    ([None, None, 1], [(0, 2), (0, 1)], (1, 0)),
+    ([None, None, 0, 1], [(0, 3), (2, 1)], (1, 2)),
+    ([None, None, None, 2], [(0, 1), (1, 3)], (2, 0)),
+    ([None, None, 0], [(2, 1)], (1, 0)),
+]
+
+
+def split_batches(rnd, cases):
+    """every assignment of {object, apply} to the edges and to the services of each shape"""
+    for lay, edges, closing in SPLIT_SHAPES:
+        svcs = [i for i, h in enumerate(lay) if h is not None]
+        for vias in itertools.product(('obj', 'apply'), repeat=len(edges)):
+            for svia in itertools.product((0, 1), repeat=len(svcs)):
+                asv = [s for s, f in zip(svcs, svia) if f]
+                w = W(rnd)
+                layout(w, lay, asv)
+                order = list(range(len(edges)))
+                rnd.shuffle(order)
+                deps = []
+                for i in order:
+                    c, p = edges[i]
+                    w.lines.append(w.dep_line('dg_dep', i, c, p, rg=rnd.choice(('-', '-', '-', '5')), via=vias[i], **w.rand_attrs(p)))
+                    deps.append((c, p, vias[i]))
+                w.lines.append('dg_commit')
+                tags = {'family': 'split-batch', 'rounds': len(w.batches(deps))}
+                if w.cyclic([(c, p) for c, p, _ in deps]):
+                    tags['span_batches'] = w.spans_batches(deps)
+                    # the same nodes as plain objects, then the edges one at a time at runtime: the last one closes the cycle
+                    layout(w, lay)
+                    w.lines.append('dg_commit')
+                    for i in order:
+                        c, p = edges[i]
+                        w.lines.append(w.dep_line('dg_add', 10 + i, c, p, **w.rand_attrs(p)))
+                        if not w.cyclic([(c, p)]):
+                            w.deps[10 + i] = (c, p)
+                else:
+                    for i in order:
+                        w.deps[i] = edges[i]
+                    w.lines.append('dg_g')
+                    w.lines.append('dg_q')
+                    if closing:
+                        # a runtime addition closing a cycle whose other edges came from different rounds of the load
+                        tags['rt_closes_multi_round'] = len(w.batches(deps)) >= 2
+                        w.lines.append(w.dep_line('dg_add', 20, closing[0], closing[1], **w.rand_attrs(closing[1])))
+                        w.lines.append(w.dep_line('dg_add', 21, closing[1], closing[0], **w.rand_attrs(closing[0])))
+                        if not w.cyclic([(closing[1], closing[0])]):
+                            w.deps[21] = (closing[1], closing[0])
+                w.lines.append('dg_g')
+                status_sweep(w, 2)
+                cases.append({'lines': w.lines, 'tags': tags})
 
 
 def generate(seed, tier):
@@ -394,6 +486,7 @@ def generate(seed, tier):
     cases = []
     big = tier in ('thorough',)
     exhaustive_small(rnd, cases)
+    split_batches(rnd, cases)
     sampled_small(rnd, cases, {'quick': 1500, 'thorough': 12000, 'search': 3000}.get(tier, 1500))
     random_graphs(rnd, cases, {'quick': 400, 'thorough': 4000, 'search': 800}.get(tier, 400))
     implicit_cycles(rnd, cases, {'quick': 60, 'thorough': 400, 'search': 100}.get(tier, 60))
@@ -431,6 +524,9 @@ def extra_stats(cases, impl):
     st = {'queries': 0, 'reach_verdicts': 0, 'unreachable_verdicts': 0, 'commit_ok': 0, 'commit_rejected': 0, 'add_ok': 0,
           'add_rejected': 0, 'del': 0, 'group_lines': 0, 'shared_group_slots': 0, 'group_state_failed': 0, 'group_state_unreachable': 0,
           'max_registry': 0}
+    st['loads_with_2plus_rounds'] = sum(1 for c in cases if c.get('tags', {}).get('rounds', 1) >= 2)
+    st['cases_cycle_spanning_2plus_batches'] = sum(1 for c in cases if c.get('tags', {}).get('span_batches'))
+    st['cases_runtime_add_closing_multi_round_cycle'] = sum(1 for c in cases if c.get('tags', {}).get('rt_closes_multi_round'))
     for c in cases:
         for l in impl.get(c['id'], []):
             if l.startswith('r '):
